@@ -9,6 +9,7 @@ import (
 	"fmt"
 	"runtime/debug"
 	"strings"
+	"sync/atomic"
 	"testing"
 	"time"
 
@@ -396,6 +397,7 @@ type observation struct {
 	prepared      bool
 	prepareErr    error
 	proposeCalled bool
+	elapsed       time.Duration
 	stuck         bool // a relay delivered, nothing was submitted within stuckBound, Propose still running with a live context
 	returnSeq     int
 	ctxExpired    bool
@@ -426,8 +428,11 @@ func topVouchFrame(stack string) string {
 
 // stuckBound: how long after a relay double has returned the full block Propose
 // may take to submit it before the harness stops waiting (the hand-over inside
-// vouch takes microseconds).
-const stuckBound = 5 * time.Second
+// vouch takes microseconds).  After the bound the harness looks again 100 times
+// at 10 ms intervals, so that a stall of the whole process (loaded machine) is
+// not mistaken for vouch sitting on the block: those looks only happen while
+// the process runs.
+const stuckBound = 2 * time.Second
 
 // duties returns the duties of the history (the first one stripped of More and
 // Order, the others normalised to what is configured per service).
@@ -560,7 +565,8 @@ func run(c *Case) (obs []*observation, harness string) {
 		}
 		o.proposeCalled = true
 		propose(bg, svc, d, w, o, duty)
-		if o.hung {
+		if o.hung || o.stuck {
+			// one lost proposal decides the history; do not spend more time on it
 			break
 		}
 	}
@@ -594,6 +600,7 @@ func liveSubmission(w *world) bool {
 
 // propose calls Propose for one duty under the case's deadline and watches it.
 func propose(bg context.Context, svc *proposer.Service, c *Case, w *world, o *observation, duty *beaconblockproposer.Duty) {
+	started := time.Now()
 	ctx, cancel := context.WithTimeout(bg, time.Duration(c.DeadlineMs)*time.Millisecond)
 	defer cancel()
 	done := make(chan string, 1)
@@ -623,7 +630,19 @@ func propose(bg context.Context, svc *proposer.Service, c *Case, w *world, o *ob
 		case o.panicked = <-done:
 			returned = true
 		case <-bound.C:
-			if liveSubmission(w) {
+			submitted := liveSubmission(w)
+			for i := 0; i < 100 && !submitted && !returned; i++ {
+				select {
+				case o.panicked = <-done:
+					returned = true
+				case <-time.After(10 * time.Millisecond):
+				}
+				submitted = liveSubmission(w)
+			}
+			if returned {
+				break
+			}
+			if submitted {
 				// submitted; wait for Propose to come back
 				select {
 				case o.panicked = <-done:
@@ -643,6 +662,7 @@ func propose(bg context.Context, svc *proposer.Service, c *Case, w *world, o *ob
 	w.mu.Lock()
 	o.ctxExpired = ctx.Err() != nil
 	o.returnSeq = w.next()
+	o.elapsed = time.Since(started)
 	w.mu.Unlock()
 	if returned && !o.ctxExpired && !liveSubmission(w) {
 		// Propose gave up although its context is alive.  Relay requests that
@@ -1005,11 +1025,15 @@ func judge(c *Case, o *observation) (fs []finding, labels []string, inconclusive
 		}
 		switch {
 		case o.stuck && delivered && liveSubmits == 0:
-			add("relay-block-not-submitted", "a relay returned the full block to vouch's request; %v later nothing was submitted and Propose was still waiting although its context was alive", stuckBound)
+			add("relay-block-not-submitted", "a relay returned the full block to vouch's request; %v later nothing was submitted and Propose was still waiting although its context was alive", stuckBound+time.Second)
 		case !delivered && liveSubmits == 0 && !o.ctxExpired && abandoned >= 0:
 			add("relay-block-not-submitted", "Propose gave up (its context still alive) while relay %d, which had been sent the signed blinded block, was still answering; that relay then returned the full block and nothing was submitted", abandoned)
 		case delivered && liveSubmits == 0 && o.ctxExpired:
-			inconclusive = "a relay returned the block as the case deadline expired"
+			var scripts []string
+			for _, r := range c.Relays {
+				scripts = append(scripts, strings.Join(r.Steps, ","))
+			}
+			inconclusive = fmt.Sprintf("a relay returned the block as the case deadline expired (deadline %d ms, Propose took %d ms, relays %v)", c.DeadlineMs, o.elapsed.Milliseconds(), scripts)
 		case delivered && liveSubmits == 0:
 			add("relay-block-not-submitted", "a relay returned the full block but nothing was submitted (%d submissions with an ended context)", len(o.submits))
 		case delivered:
@@ -1098,7 +1122,21 @@ func caseLabels(c *Case) []string {
 	return l
 }
 
+// firstViolation: when this process first reported a violation (nanoseconds; 0 =
+// none).  rapid's block minimisation does not look at -rapid.shrinktime between
+// attempts, and an attempt can cost seconds here (back-offs, deadlines); after
+// shrinkBudget further candidates are declined (skipped, i.e. "not a
+// counterexample"), which ends the minimisation with the best case found so far.
+var firstViolation atomic.Int64
+
+const shrinkBudget = 20 * time.Second
+
 func check(t ev.TB, c *Case) {
+	if fv := firstViolation.Load(); fv != 0 && time.Since(time.Unix(0, fv)) > shrinkBudget {
+		if sk, ok := t.(interface{ SkipNow() }); ok {
+			sk.SkipNow()
+		}
+	}
 	ds := duties(c)
 	for _, d := range ds {
 		if ex := excluded(d); ex != "" {
@@ -1150,6 +1188,9 @@ func check(t ev.TB, c *Case) {
 		ev.Sample(c)
 	}
 	for _, f := range fs {
+		if !ev.IsKnown(f.sig) {
+			firstViolation.CompareAndSwap(0, time.Now().UnixNano())
+		}
 		ev.Violation(t, f.sig, c, "%s", f.detail)
 	}
 }
